@@ -224,7 +224,11 @@ func (d *Decoder) readTypedList(tag byte) (interface{}, error) {
 
 	aryType, ok := d.typMap[listTyp]
 	if !ok {
-		return nil, newCodecError("readTypedList", "can't find list type %s", listTyp)
+		if d.skipping == 0 {
+			return nil, newCodecError("readTypedList", "can't find list type %s", listTyp)
+		}
+		// the list is part of a value that is dropped: its elements are read like those of an untyped list
+		aryType = reflect.TypeOf([]interface{}{})
 	}
 
 	if aryType.Kind() != reflect.Slice {
